@@ -326,6 +326,83 @@ def baselines(env: _Env, ck=None):
     return base
 
 
+# --------------------------------------------------------------------------- settings as decorators on GENERATOR functions
+# Reading taken by the check (stated in design.d/C16.md): a manager used as a decorator wraps the CALL of the
+# decorated function. For a generator function that call only creates the generator, so the setting is in
+# force neither in the generator's body nor in the caller between two next() calls: every probe reads the
+# settings that were in force before. Whatever the reading, after all generators have finished or been
+# closed - in any order - the previous settings must be back.
+def gen_generator_scenario(rng: random.Random):
+    n = rng.randrange(1, 4)
+    same = rng.randrange(3)
+    gens = []
+    for _ in range(n):
+        w = same if rng.random() < 0.6 else rng.randrange(3)
+        gens.append({"which": w, "arg": rng.randrange(1 if w == 2 else 0, N_ARGS[w] + (1 if w == 2 else 0)),
+                     "yields": rng.randrange(1, 4)})
+    sched = []
+    for i, g in enumerate(gens):
+        k = g["yields"] + 1
+        if rng.random() < 0.3:
+            k = rng.randrange(1, k)  # abandoned early: closed at the end (or where "close" is scheduled)
+        sched += [i] * k
+    rng.shuffle(sched)
+    closes = [i for i in range(n) if rng.random() < 0.3]
+    rng.shuffle(closes)
+    return {"init": [rng.randrange(4), rng.randrange(3), rng.randrange(5)], "gens": gens,
+            "schedule": sched, "closes": closes}
+
+
+FIXED_GENERATOR_SCENARIOS = [
+    # two interleaved generators of the same setting, finishing in the order they started (non-LIFO)
+    {"init": [2, 1, 0], "gens": [{"which": w, "arg": a1, "yields": 1}, {"which": w, "arg": a2, "yields": 1}],
+     "schedule": [0, 1, 0, 1], "closes": []}
+    for w, a1, a2 in ((0, 0, 3), (1, 0, 2), (2, 1, 4))
+] + [
+    {"init": [2, 1, 0], "gens": [{"which": 1, "arg": 2, "yields": 2}], "schedule": [0, 0, 0], "closes": []},
+    {"init": [1, 2, 3], "gens": [{"which": 2, "arg": 1, "yields": 3}, {"which": 0, "arg": 0, "yields": 1}],
+     "schedule": [0, 1, 0], "closes": [0, 1]},
+]
+
+
+def run_generator_scenario(env: _Env, sc):
+    """-> (final, probes) ; probes = [(where, settings read)] in the generators' bodies and in the caller."""
+    env.write(sc["init"])
+    probes = []
+
+    def make(i, g):
+        @env.manager(g["which"], g["arg"])
+        def f():
+            for k in range(g["yields"]):
+                probes.append((f"body of generator {i}", env.read()))
+                yield k
+            probes.append((f"body of generator {i}", env.read()))
+        return f
+
+    objs = []
+    for i, g in enumerate(sc["gens"]):
+        objs.append(make(i, g)())
+        probes.append((f"caller after creating generator {i}", env.read()))
+    for i in sc["schedule"]:
+        try:
+            next(objs[i])
+        except StopIteration:
+            pass
+        probes.append((f"caller after next(generator {i})", env.read()))
+    for i in list(sc["closes"]) + list(range(len(objs))):
+        try:
+            objs[i].close()
+        except Exception:  # noqa: BLE001
+            pass
+    final = env.read()
+    return final, probes
+
+
+def generator_oracle(sc, final):
+    return [(MANAGERS[j], "leak-after-generators", f"settings {sc['init']} before, {final} after all decorated generators finished or were closed")
+            for j in range(3) if final[j] != sc["init"][j]]
+
+
 def forests(n):
     """All ordered forests with n nodes, as nested lists."""
     if n == 0:
@@ -453,6 +530,40 @@ def run(ck: core.Check):
                     )
     env.write(saved)
 
+
+    # ---------------------------------------------------------------- managers as decorators on generator functions
+    gstats = {"scenarios": 0, "interleaved": 0, "probes": 0, "reading_mismatches": 0}
+    try:
+        scs = list(FIXED_GENERATOR_SCENARIOS) + [gen_generator_scenario(rng) for _ in range(ck.pick(200, 2000))]
+        try:
+            gmodel = ck.driver().ask_many("C16", [
+                {"init": sc["init"], "blocks": [{"which": g["which"], "arg": g["arg"], "raises": False, "inner": []} for g in sc["gens"]]}
+                for sc in scs])
+        except Exception as e:  # noqa: BLE001
+            ck.broken("correspondence", "C16 driver", str(e))
+            gmodel = [None] * len(scs)
+        for sc, m in zip(scs, gmodel):
+            final, probes = run_generator_scenario(env, sc)
+            env.write(saved)
+            gstats["scenarios"] += 1
+            gstats["interleaved"] += int(len(sc["gens"]) > 1)
+            gstats["probes"] += len(probes)
+            ck.count(("generators", repr(sc)))
+            for mgr, kind, what in generator_oracle(sc, final):
+                ck.failure(f"{mgr}:{kind}", f"{mgr}: {what}", {"generators": sc})
+            want = m["glob"] if m is not None and "error" not in m else sc["init"]
+            off = [(w, r) for w, r in probes if r != want] + ([("end", final)] if final != want else [])
+            if off:
+                gstats["reading_mismatches"] += 1
+                if gstats["reading_mismatches"] <= 3:
+                    ck.broken("correspondence", "C16 decorated generator functions: a decorator wraps the creating call only",
+                              f"{sc}: settings {off[0][1]} read in the {off[0][0]}; the model (block around the call that creates the generator) says {want}")
+    except Exception as e:  # noqa: BLE001
+        ck.broken("correspondence", "C16 generator scenarios not observable", f"{type(e).__name__}: {e}")
+    finally:
+        env.write(saved)
+    ck.cov["decorated_generators"] = gstats
+
     # ---------------------------------------------------------------- behaviour: what the settings DO, not what the globals read
     bstats = {"histories": 0, "behaviour_snapshots": 0, "mismatches": 0}
     try:
@@ -472,9 +583,9 @@ def run(ck: core.Check):
                         init_[w_] = i_
                         for raises_ in (False, True):
                             fixed.append(([{"which": w_, "arg": a_, "raises": raises_, "inner": [], "form": "with", "how": 1}], init_))
-        small = [(b, i) for b, i in zip(cases, inits) if size(b) <= 2][: ck.pick(50, 600)]
+        small = [(b, i) for b, i in zip(cases, inits) if size(b) <= 2][: ck.pick(40, 600)]
         rnd = [(gen_random(rng, rng.randrange(2, 7)), [rng.randrange(4), rng.randrange(3), rng.randrange(5)])
-               for _ in range(ck.pick(25, 400))]
+               for _ in range(ck.pick(20, 400))]
         bcases = fixed + small + rnd
         try:
             bmodel = ck.driver().ask_many("C16", [{"init": i, "blocks": strip(b)} for b, i in bcases])
@@ -534,6 +645,12 @@ def replay(ck: core.Check, doc) -> bool:
     saved = env.read()
     case = doc["case"]
     try:
+        if case.get("generators"):
+            final, _ = run_generator_scenario(env, case["generators"])
+            bad3 = generator_oracle(case["generators"], final)
+            for m_, k_, w_ in bad3:
+                print(f"{m_}: {k_}: {w_}")
+            return bool(bad3)
         if case.get("behaviour"):
             env.prepare_probes()
             base = baselines(env)
